@@ -43,6 +43,7 @@ type Env struct {
 	F, G  float64
 	S, T  string
 	A, A2 []int
+	FA    []float64
 	SA    []string
 	AA    []interface{}
 	OS    []*Obj
@@ -81,6 +82,7 @@ func (e Env) Sum(xs ...int) int {
 	return s
 }
 func (e Env) Fast(xs ...interface{}) interface{} { e.L.Add("Fast/%d", len(xs)); return len(xs) }
+func (e Env) Pack(xs ...interface{}) interface{} { e.L.Add("Pack/%d", len(xs)); return xs }
 func (e Env) Pos(i int) bool                     { e.L.Add("Pos(%d)", i); return i > 0 }
 func (e Env) TakesI8(x int8) int8                { e.L.Add("TakesI8(%d)", x); return x }
 func (e Env) TakesU8(x uint8) uint8              { e.L.Add("TakesU8(%d)", x); return x }
@@ -120,6 +122,7 @@ var Domains = map[string]Domain{
 	"T":  {c("a"), c("b")},
 	"A":  {c([]int{1, 2, 3}), c([]int{}), c([]int{1}), c([]int{3, 1, 0})},
 	"A2": {c([]int{2, 0}), c([]int(nil))},
+	"FA": {c([]float64{0.5, 1.5, 2, 7.5}), c([]float64{})},
 	"SA": {c([]string{"a", "b"}), c([]string{}), c([]string{"ab"})},
 	"AA": {c([]interface{}{1, "a", nil}), c([]interface{}{}), c([]interface{}{2.5, true})},
 	"OS": {func(l *Log) interface{} {
@@ -200,6 +203,8 @@ func Make(v Val) *Env {
 			e.A = val.([]int)
 		case "A2":
 			e.A2 = val.([]int)
+		case "FA":
+			e.FA = val.([]float64)
 		case "SA":
 			e.SA = val.([]string)
 		case "AA":
@@ -258,7 +263,7 @@ func Valuations(vars []string) []Val {
 	for _, name := range vars {
 		d, ok := Domains[name]
 		if !ok {
-			continue
+			panic("henv: member without a value domain: " + name)
 		}
 		var next []Val
 		for _, v := range out {
